@@ -46,9 +46,22 @@ def expand_keys(st, key):
         cls, field = key[2:].split(".")
         if field_type(cls, field)[0] == "opt":
             ks.append(key + "?")
-    if key.startswith("el:") and not key.endswith("?") and (key + "?") in st.heap:
+    if key.startswith("el:") and not key.endswith("?"):
+        ks.append(key + "?")          # lists of Optional[number]: the none-flags are part of the element view
+    if key.startswith("dv:") and not key.endswith("?"):
         ks.append(key + "?")
     return ks
+
+
+def expanded_modifies(st, mods):
+    """heap map name -> None (whole map) | list of index terms; a key that names a value map also names its none-flag map; several entries for one map add up"""
+    out = {}
+    for key, idxs in norm_modifies(mods).items():
+        for k in expand_keys(st, key):
+            if k in out and out[k] is None:
+                continue
+            out[k] = None if idxs is None else (out.get(k) or []) + list(idxs)
+    return out
 
 
 def touch(st, k):
@@ -59,21 +72,49 @@ def touch(st, k):
         cls, field = k[2:].rstrip("?").split(".")
         st.farr(cls, field, "none" if k.endswith("?") else "val")
         return True
-    if k.startswith("len:") or k.startswith("el:"):
-        return k in st.heap
     if k in ("len", "mem", "heapok", "alloc", "nodup"):
         {"len": st.len_arr, "mem": st.mem_arr, "heapok": st.heapok_arr, "alloc": st.alloc_arr, "nodup": st.nodup_arr}[k]()
         return True
-    return False
+    if k.startswith("g:"):
+        return False          # a ghost map that nobody has read or written yet has no sort; nothing can depend on it
+    # list / dict view maps are created lazily; a modifies clause naming one that this path has not touched yet must still
+    # havoc it (skipping it would keep the canonical entry constant, i.e. silently treat the map as unchanged)
+    srt = _kind_sort
+    if k.startswith("len:"):
+        st.harr(k, lambda: z3.ArraySort(REF, z3.IntSort()))
+        return True
+    if k.startswith("el:"):
+        kind = k[3:].rstrip("?")
+        st.harr(k, lambda: z3.ArraySort(REF, z3.ArraySort(z3.IntSort(), z3.BoolSort() if k.endswith("?") else srt(kind))))
+        return True
+    if k.startswith("dd:") or k.startswith("dv:"):
+        kk, vk = k[3:].rstrip("?").split("_", 1)
+        if k.startswith("dd:") or k.endswith("?"):
+            st.harr(k, lambda: z3.ArraySort(REF, z3.ArraySort(srt(kk), z3.BoolSort())))
+        else:
+            st.harr(k, lambda: z3.ArraySort(REF, z3.ArraySort(srt(kk), srt(vk))))
+        return True
+    raise Unsupported(f"modifies clause names an unknown heap map `{k}`")
+
+
+def _kind_sort(kind):
+    from .core import DYN
+    table = {"Int": z3.IntSort(), "Real": z3.RealSort(), "Bool": z3.BoolSort(), "String": z3.StringSort(), "Ref": REF, "Dyn": DYN}
+    if kind in table:
+        return table[kind]
+    from .core import KIND_SORTS
+    if kind in KIND_SORTS:
+        return KIND_SORTS[kind]
+    raise Unsupported(f"modifies clause names a heap map of unknown element kind `{kind}`")
 
 
 def havoc_with_frame(st, mods, allow_fresh=True, alloc_base=None):
     """havoc the heap maps named in `mods`; index-restricted entries keep everything else (at previously allocated refs;
     `alloc_base` = allocation map relative to which `previously` is meant, default: now)"""
-    mods = norm_modifies(mods)
+    mods = expanded_modifies(st, mods)
     alloc0 = alloc_base if alloc_base is not None else st.alloc_arr()
-    for key, idxs in mods.items():
-        for k in expand_keys(st, key):
+    for k, idxs in mods.items():
+        if True:
             if not touch(st, k):
                 continue
             old = st.heap[k]
@@ -91,11 +132,9 @@ def havoc_with_frame(st, mods, allow_fresh=True, alloc_base=None):
 
 def frame_obligations(st0_heap, alloc0, st, mods, prefix):
     """after executing a body: every heap map differs from its entry value only where `mods` allows (checked on refs allocated at entry)"""
-    mods = norm_modifies(mods)
-    allowed = {}
-    for key, idxs in mods.items():
-        for k in expand_keys(st, key):
-            allowed[k] = idxs
+    if any(m == "*" for m in mods):
+        return          # no frame claimed: such a contract may be verified but not used at call sites (handler() refuses it)
+    allowed = expanded_modifies(st, mods)
     for k, new in st.heap.items():
         if k == "alloc" or k.startswith("g:"):
             continue
@@ -110,6 +149,14 @@ def frame_obligations(st0_heap, alloc0, st, mods, prefix):
             st.oblige(f"{prefix}frame:{k}", new == old, "frame")
             continue
         st.oblige(f"{prefix}frame:{k}", frame_formula(alloc0, old, new, allowed.get(k) or []), "frame")
+
+
+def cover(st, what):
+    """reachability canary: an obligation `False` under the path condition reached here.  Canaries of one group are satisfied when at
+    least ONE of them cannot be proved (some path of the group is reachable); a group whose members are all provable means the
+    hypotheses collected on every such path are contradictory, i.e. everything `proved` below them is vacuous."""
+    grp = "/".join(st.labels) + "/cover:" + what
+    st.obl.append({"name": grp, "pc": list(st.pc), "goal": z3.BoolVal(False), "kind": "canary", "expect": "fail", "group": grp})
 
 
 class FSpec:
@@ -222,6 +269,8 @@ class FSpec:
         for exc, cond in self.raises.items():
             st1.assume(z3.Not(cond(st0.peek(), a)))
         mods = self.modifies(st0.peek(), a)
+        if any(m == "*" for m in mods):
+            raise Unsupported(f"contract of {self.qual} claims no frame and cannot be used at a call site")
         if mods or self.fresh_result:
             havoc_with_frame(st1, mods)
         rty = self.result_type()
@@ -256,6 +305,10 @@ class FSpec:
         st.labels = [self.qual]
         a = self.symbolic_args(st)
         st.env = dict(a)
+        if self.fn.args.vararg is not None:      # the function under contract is verified for calls without extra arguments
+            st.env[self.fn.args.vararg.arg] = V(("pylist",), py=[])
+        if self.fn.args.kwarg is not None:
+            st.env[self.fn.args.kwarg.arg] = V(("kwdict",), py={})
         for label, f in self.pre(st.peek(), a):
             st.assume(f)
         for f in self.axioms(st.peek(), a):
@@ -286,6 +339,7 @@ class FSpec:
             res = val if kind == "return" else NONE
             for f in self.axioms(s1.peek(), a):
                 s1.assume(f)
+            cover(s1, "some path reaches a normal exit")
             for exc, cond in self.raises.items():
                 s1.oblige(f"raises:{exc}-whenever-required", z3.Not(cond(st0.peek(), a)), "raises")
             for label, f in self.post(st0.peek(), s1.peek(), a, res):
@@ -374,6 +428,7 @@ class LoopSpec:
             nctx = dict(ctx); nctx["i"] = i + 1
             for s2, kind, val in ex.run(s.body, hb, d):
                 if kind in ("fall", "continue"):
+                    cover(s2, "some path reaches the end of the loop body")
                     for label, f in self.inv(s2.peek(), nctx):
                         s2.oblige(f"inv-step:{label}", f, "inv-step")
                     frame_obligations(body_heap0, body_alloc0, s2, mods, "loop-")
@@ -423,6 +478,7 @@ class LoopSpec:
                     self.on_iter(ex, hb, ctx)
                 for s2, kind, val in ex.run(s.body, hb, d):
                     if kind in ("fall", "continue"):
+                        cover(s2, "some path reaches the end of the loop body")
                         for label, f in self.inv(s2.peek(), ctx):
                             s2.oblige(f"inv-step:{label}", f, "inv-step")
                         if dec0 is not None:
@@ -461,7 +517,19 @@ class Task:
 
 def task(tid, props, functions=(), replay=None, heavy=False):
     def deco(fn):
-        TASKS[tid] = Task(tid, props, fn, functions, fn.__doc__ or "", replay, heavy)
+        def build():
+            WF_FACTS.clear()
+            r = fn()
+            facts = list(WF_FACTS.values())
+            if facts:
+                for o in r["obligations"]:
+                    if o.get("kind") == "pin":
+                        continue
+                    have = {c.get_id() for c in o["pc"]}
+                    o["pc"] = list(o["pc"]) + [c for c in facts if c.get_id() not in have]
+            return r
+        build.__doc__ = fn.__doc__
+        TASKS[tid] = Task(tid, props, build, functions, fn.__doc__ or "", replay, heavy)
         return fn
     return deco
 
